@@ -240,7 +240,18 @@ def load_check(name, case, rec):
         sym = [True] * 3
         if not case["sym_axis"]:
             sym[axis] = False
-        bounds, lc = fem.dof.uniaxial(fc, clamped=False, move=0.0, axis=axis, sym=tuple(sym))
+        if case["jseed"] % 3 == 0:
+            # full model without symmetry planes: the left end face is held in the loading direction only, the remaining rigid
+            # body modes are removed by pins on an edge (3-d) / a point (2-d) of that face, selected with mode="and"; the
+            # pinned unknowns vanish in the homogeneous solution
+            bounds, lc = fem.dof.uniaxial(fc, clamped=False, move=0.0, axis=axis, sym=False)
+            for t in other:
+                skip = [1] * dim
+                skip[t] = 0
+                bounds[f"pin-{t}"] = fem.Boundary(fld, mode="and", skip=tuple(skip), **{"f" + "xyz"[axis]: 0.0, "f" + "xyz"[t]: 0.0})
+            rec.label("full-model-with-pins(mode=and)")
+        else:
+            bounds, lc = fem.dof.uniaxial(fc, clamped=False, move=0.0, axis=axis, sym=tuple(sym))
         track = bounds["move"]
         step = fem.Step([body], ramp={track: np.array(ramp)}, boundaries=bounds)
         mode = "uniaxial" if dim == 3 else "planestrain-uniaxial"
